@@ -111,7 +111,7 @@ def select_codes(r, tier, cx, tabs, res):
     return codes
 
 
-def run_probes(cx, bdir, codes, tag="c18"):
+def run_probes(cx, bdir, codes, tag="c18", bystanders=False):
     """-> {code: (verdict, alt, err_tail)}"""
     exe = os.path.join(bdir, "src/emu/ovniemu")
     cfg = os.path.join(vcommon.REPO, "cfg")
@@ -123,7 +123,8 @@ def run_probes(cx, bdir, codes, tag="c18"):
             jobs = []
             for i, ((m, c, v), alt) in enumerate(todo):
                 s = cx.probe_stream(m, c, v, alt=alt)
-                jobs.append((exe, os.path.join(d, "r%d-%d" % (rnd, i)), s.relpath, s.json_text(), s.obs(), cfg))
+                jobs.append((exe, os.path.join(d, "r%d-%d" % (rnd, i)), s.relpath, s.json_text(), s.obs(), cfg,
+                             cx.bystanders() if bystanders else []))
             results = pool.map(c18_lib.run_probe, jobs, chunksize=16)
             nxt = []
             for ((k, alt), (rc, err)) in zip(todo, results):
@@ -220,6 +221,40 @@ def check_dispatch(res, r, tier, prep, cx, tabs, drv, only=None):
                 nsample += 1
                 res.sample({"probe": mcv.decode("latin1"), "ovniemu": c18_lib.canonical(vd),
                             "lean_handled": mh, "lean_declared": md, "ovnievents_lists": idecl})
+    return found
+
+
+def check_bystanders(res, r, tier, prep, cx, tabs):
+    """Listed codes stay handled when OTHER threads of the trace do not require the model: the probe
+    thread declares every model, two bystander threads (lower and higher TID) only the ovni model.
+    (Seeded C18-7: the last thread's requirements decided whether a model is enabled.)"""
+    found = False
+    listed = []
+    for model, t in sorted(tabs.items()):
+        for e in t["evlist"]:
+            mcv = e[0][:3]
+            listed.append((ord(mcv[0]), ord(mcv[1]), ord(mcv[2])))
+    listed = sorted(set(listed))
+    # one code per (model, category) in the quick tier, all of them in the thorough tier
+    if tier == "quick":
+        by = {}
+        for k in listed:
+            by.setdefault(k[:2], []).append(k)
+        listed = sorted(r.choice(v) for v in by.values())
+    alone = run_probes(cx, prep.bdir, listed, tag="c18-alone")
+    withb = run_probes(cx, prep.bdir, listed, tag="c18-byst", bystanders=True)
+    for k in listed:
+        a, b = alone[k][0].split(":")[0], withb[k][0].split(":")[0]
+        res.dist("bystanders:" + a + "->" + b)
+        res.case("bystander %d %d %d %s" % (k + (b,)), nontrivial=True)
+        if a == "accepted" and b != "accepted":
+            found = True
+            res.violation("catalogue-bystander:" + bytes(k).hex(),
+                          "listed code %r is handled when its thread is alone but %s when two other threads that "
+                          "do not require its model are in the trace" % (bytes(k), withb[k][0]),
+                          "probe %d %d %d\n" % k + cx.script(k[0], k[1], k[2], withb[k][1])
+                          + "\n# plus bystander threads TID-1 / TID+1 requiring only ovni (OHx on cpu 1, OHe)\n# "
+                          + "\n# ".join(withb[k][2].split("\n")[-12:]))
     return found
 
 
@@ -624,6 +659,7 @@ def check(res, tier, replay=None):
                 found |= check_unit(res, r, tier, prep, tabs, drv)
             found |= check_dispatch(res, r, tier, prep, cx, tabs, drv)
             found |= check_unlisted_any_state(res, r, tier, prep, cx, tabs)
+            found |= check_bystanders(res, r, tier, prep, cx, tabs)
             found |= check_dump(res, r, tier, prep, cx, tabs, drv)
     for pr in prep.problems:
         res.failed_obligations = getattr(res, "failed_obligations", []) + [pr]
